@@ -66,9 +66,10 @@ BCtx(name) ==
   ELSE IF name = "seqentry" THEN [pre |-> <<"-", " ">>, n |-> 0, follow |-> <<"-", " ", "z", "\n">>]
   ELSE IF name = "nested" THEN [pre |-> <<"k", ":", "\n", " ", " ", "j", ":", " ">>, n |-> 2, follow |-> <<"z", ":", " ", "w", "\n">>]
   ELSE IF name = "nestedsib" THEN [pre |-> <<"k", ":", "\n", " ", " ", "j", ":", " ">>, n |-> 2, follow |-> <<" ", " ", "z", ":", " ", "w", "\n">>]   \* the next node is a sibling at the parent's own column
+  ELSE IF name = "afterblank" THEN [pre |-> <<"-", " ", "x", "\n", "\n", "-", " ">>, n |-> 0, follow |-> <<"-", " ", "z", "\n">>]     \* the entry after a plain scalar and an empty line
   ELSE IF name = "seqsib" THEN [pre |-> <<"k", ":", "\n", " ", " ", "-", " ">>, n |-> 2, follow |-> <<" ", " ", "-", " ", "z", "\n">>]
   ELSE [pre |-> <<"k", ":", "\n", "-", " ", "j", ":", " ">>, n |-> 2, follow |-> <<"-", " ", "z", "\n">>]      \* "seqmap": - j: | inside k:
-BCtxNames == {"top", "topdoc", "mapvalue", "seqentry", "nested", "seqmap", "nestedsib", "seqsib"}
+BCtxNames == {"top", "topdoc", "mapvalue", "seqentry", "nested", "seqmap", "nestedsib", "seqsib", "afterblank"}
 WrapB(name, ev, followed) ==
   LET SS == EB_("StreamStart", <<>>, "") SE == EB_("StreamEnd", <<>>, "") DS == EB_("DocumentStart", <<>>, "implicit") DX == EB_("DocumentStart", <<>>, "explicit")
       DE == EB_("DocumentEnd", <<>>, "") MS == EB_("MappingStart", <<>>, "") ME == EB_("MappingEnd", <<>>, "") QS == EB_("SequenceStart", <<>>, "") QE == EB_("SequenceEnd", <<>>, "")
@@ -79,6 +80,7 @@ WrapB(name, ev, followed) ==
      ELSE IF name = "seqentry" THEN <<SS, DS, QS, ev>> \o (IF followed THEN <<Z>> ELSE <<>>) \o <<QE, DE, SE>>
      ELSE IF name = "nested" THEN <<SS, DS, MS, K, MS, J, ev, ME>> \o (IF followed THEN <<Z, W>> ELSE <<>>) \o <<ME, DE, SE>>
      ELSE IF name = "nestedsib" THEN <<SS, DS, MS, K, MS, J, ev>> \o (IF followed THEN <<Z, W>> ELSE <<>>) \o <<ME, ME, DE, SE>>
+     ELSE IF name = "afterblank" THEN <<SS, DS, QS, PB_(<<"x">>), ev>> \o (IF followed THEN <<Z>> ELSE <<>>) \o <<QE, DE, SE>>
      ELSE IF name = "seqsib" THEN <<SS, DS, MS, K, QS, ev>> \o (IF followed THEN <<Z>> ELSE <<>>) \o <<QE, ME, DE, SE>>
      ELSE <<SS, DS, MS, K, QS, MS, J, ev, ME>> \o (IF followed THEN <<Z>> ELSE <<>>) \o <<QE, ME, DE, SE>>
 
